@@ -1885,6 +1885,209 @@ example :
       r.got = [7] ∧ r.l.inits = 1 := by
   decide
 
+/-! ### stacked adaptors: simulations lift through adaptors, so the single-adaptor theorems chain -/
+
+/-- `K₁` and `K₂` answer alike and keep their states related by `R` -/
+structure Sim {σ₁ σ₂ : Type} (K₁ : Snk σ₁ α) (K₂ : Snk σ₂ α) (R : σ₁ → σ₂ → Prop) : Prop where
+  ready : ∀ a b, R a b → R (K₁.pollReady a).1 (K₂.pollReady b).1 ∧ (K₁.pollReady a).2 = (K₂.pollReady b).2
+  send : ∀ a b x, R a b → R (K₁.startSend a x).1 (K₂.startSend b x).1 ∧ (K₁.startSend a x).2 = (K₂.startSend b x).2
+  flush : ∀ a b, R a b → R (K₁.pollFlush a).1 (K₂.pollFlush b).1 ∧ (K₁.pollFlush a).2 = (K₂.pollFlush b).2
+  close : ∀ a b, R a b → R (K₁.pollClose a).1 (K₂.pollClose b).1 ∧ (K₁.pollClose a).2 = (K₂.pollClose b).2
+
+theorem aux_sim_recd {σ₁ σ₂ : Type} {K₁ : Snk σ₁ α} {K₂ : Snk σ₂ α} {R : σ₁ → σ₂ → Prop} (h : Sim K₁ K₂ R) :
+    Sim K₁.recd K₂.recd (fun a b => R a.1 b.1 ∧ a.2 = b.2) := by
+  refine ⟨?_, ?_, ?_, ?_⟩
+  · intro a b hr; obtain ⟨h1, h2⟩ := h.ready a.1 b.1 hr.1
+    simp only [aux_recd_pollReady]; exact ⟨⟨h1, by rw [hr.2, h2]⟩, h2⟩
+  · intro a b x hr; obtain ⟨h1, h2⟩ := h.send a.1 b.1 x hr.1
+    simp only [aux_recd_startSend]; exact ⟨⟨h1, by rw [hr.2]⟩, h2⟩
+  · intro a b hr; obtain ⟨h1, h2⟩ := h.flush a.1 b.1 hr.1
+    simp only [aux_recd_pollFlush]; exact ⟨⟨h1, by rw [hr.2, h2]⟩, h2⟩
+  · intro a b hr; obtain ⟨h1, h2⟩ := h.close a.1 b.1 hr.1
+    simp only [aux_recd_pollClose]; exact ⟨⟨h1, by rw [hr.2, h2]⟩, h2⟩
+
+theorem aux_sim_map {γ σ₁ σ₂ : Type} (f : γ → α) {K₁ : Snk σ₁ α} {K₂ : Snk σ₂ α} {R : σ₁ → σ₂ → Prop}
+    (h : Sim K₁ K₂ R) : Sim (map f K₁) (map f K₂) R :=
+  ⟨h.ready, fun a b x hr => h.send a b (f x) hr, h.flush, h.close⟩
+
+theorem aux_sim_drain {σ₁ σ₂ : Type} {K₁ : Snk σ₁ α} {K₂ : Snk σ₂ α} {R : σ₁ → σ₂ → Prop} (h : Sim K₁ K₂ R)
+    (buf : List α) : ∀ a b, R a b →
+      R (drain K₁ a buf).1.1 (drain K₂ b buf).1.1 ∧ (drain K₁ a buf).1.2 = (drain K₂ b buf).1.2 ∧
+      (drain K₁ a buf).2 = (drain K₂ b buf).2 := by
+  induction buf with
+  | nil => intro a b hr; exact ⟨hr, rfl, rfl⟩
+  | cons x r ih =>
+    intro a b hr
+    obtain ⟨h1, h2⟩ := h.ready a b hr
+    simp only [drain]
+    rw [← h2]
+    cases (K₁.pollReady a).2 with
+    | false => exact ⟨h1, rfl, rfl⟩
+    | true => simp only [if_true]; exact ih _ _ (h.send _ _ x h1).1
+
+theorem aux_sim_flatMap {γ σ₁ σ₂ : Type} (g : γ → List α) {K₁ : Snk σ₁ α} {K₂ : Snk σ₂ α} {R : σ₁ → σ₂ → Prop}
+    (h : Sim K₁ K₂ R) : Sim (flatMap g K₁) (flatMap g K₂) (fun a b => R a.1 b.1 ∧ a.2 = b.2) := by
+  refine ⟨?_, ?_, ?_, ?_⟩
+  · intro a b hr
+    obtain ⟨h1, h2, h3⟩ := aux_sim_drain h a.2 a.1 b.1 hr.1
+    simp only [flatMap]; rw [← hr.2]; exact ⟨⟨h1, h2⟩, h3⟩
+  · intro a b x hr
+    simp only [flatMap]; rw [← hr.2]
+    cases a.2.isEmpty with
+    | true => exact ⟨⟨hr.1, rfl⟩, rfl⟩
+    | false => exact ⟨⟨hr.1, rfl⟩, rfl⟩
+  · intro a b hr
+    obtain ⟨h1, h2, h3⟩ := aux_sim_drain h a.2 a.1 b.1 hr.1
+    simp only [flatMap]; rw [← hr.2]
+    cases hd : (drain K₁ a.1 a.2).2 with
+    | false =>
+      have hd2 : (drain K₂ b.1 a.2).2 = false := by rw [← h3]; exact hd
+      simp only [hd2, Bool.false_eq_true, if_false]
+      exact ⟨⟨h1, h2⟩, by rw [hd]⟩
+    | true =>
+      have hd2 : (drain K₂ b.1 a.2).2 = true := by rw [← h3]; exact hd
+      simp only [hd2, if_true]
+      obtain ⟨f1, f2⟩ := h.flush _ _ h1
+      exact ⟨⟨f1, h2⟩, f2⟩
+  · intro a b hr
+    obtain ⟨h1, h2, h3⟩ := aux_sim_drain h a.2 a.1 b.1 hr.1
+    simp only [flatMap]; rw [← hr.2]
+    cases hd : (drain K₁ a.1 a.2).2 with
+    | false =>
+      have hd2 : (drain K₂ b.1 a.2).2 = false := by rw [← h3]; exact hd
+      simp only [hd2, Bool.false_eq_true, if_false]
+      exact ⟨⟨h1, h2⟩, by rw [hd]⟩
+    | true =>
+      have hd2 : (drain K₂ b.1 a.2).2 = true := by rw [← h3]; exact hd
+      simp only [hd2, if_true]
+      obtain ⟨f1, f2⟩ := h.close _ _ h1
+      exact ⟨⟨f1, h2⟩, f2⟩
+
+theorem aux_sim_run {σ₁ σ₂ : Type} {K₁ : Snk σ₁ α} {K₂ : Snk σ₂ α} {R : σ₁ → σ₂ → Prop} (h : Sim K₁ K₂ R)
+    (ops : List (Op α)) : ∀ (c₁ : σ₁ × Bool) (c₂ : σ₂ × Bool), R c₁.1 c₂.1 → c₁.2 = c₂.2 →
+      R (runOps K₁ c₁ ops).1 (runOps K₂ c₂ ops).1 ∧ (runOps K₁ c₁ ops).2 = (runOps K₂ c₂ ops).2 := by
+  induction ops with
+  | nil => intro c₁ c₂ hr ho; exact ⟨hr, ho⟩
+  | cons op ops ih =>
+    intro c₁ c₂ hr ho
+    simp only [runOps, List.foldl_cons] at ih ⊢
+    apply ih
+    · cases op with
+      | ready => exact (h.ready _ _ hr).1
+      | send x => exact (h.send _ _ x hr).1
+      | flush => exact (h.flush _ _ hr).1
+      | close => exact (h.close _ _ hr).1
+    · cases op with
+      | send x => simp only [stepOp]; rw [ho, (h.send _ _ x hr).2]
+      | ready => exact ho
+      | flush => exact ho
+      | close => exact ho
+
+/-- `Filter` over a recorded sink records the filtered trace of the recorded `Filter` -/
+theorem aux_sim_filter (p : α → Bool) (k : Snk σ α) :
+    Sim (filter p k).recd (filter p k.recd)
+      (fun a b => a.1 = b.1 ∧ b.2 = filterMapEv (fun x => if p x then some x else none) a.2) := by
+  refine ⟨?_, ?_, ?_, ?_⟩
+  · intro a b hr; obtain ⟨a1, a2⟩ := a; obtain ⟨b1, b2⟩ := b; obtain ⟨h1, h2⟩ := hr
+    simp only at h1 h2; subst h1; subst h2
+    simp [filter, Snk.recd, aux_filterMapEv_append, filterMapEv]
+  · intro a b x hr; obtain ⟨a1, a2⟩ := a; obtain ⟨b1, b2⟩ := b; obtain ⟨h1, h2⟩ := hr
+    simp only at h1 h2; subst h1; subst h2
+    cases hp : p x <;> simp [filter, Snk.recd, aux_filterMapEv_append, filterMapEv, hp]
+  · intro a b hr; obtain ⟨a1, a2⟩ := a; obtain ⟨b1, b2⟩ := b; obtain ⟨h1, h2⟩ := hr
+    simp only at h1 h2; subst h1; subst h2
+    simp [filter, Snk.recd, aux_filterMapEv_append, filterMapEv]
+  · intro a b hr; obtain ⟨a1, a2⟩ := a; obtain ⟨b1, b2⟩ := b; obtain ⟨h1, h2⟩ := hr
+    simp only at h1 h2; subst h1; subst h2
+    simp [filter, Snk.recd, aux_filterMapEv_append, filterMapEv]
+
+def opMap {γ : Type} (f : γ → α) : Op γ → Op α
+  | .ready => .ready
+  | .send x => .send (f x)
+  | .flush => .flush
+  | .close => .close
+
+/-- `Map` is a translation of the client's calls: running `map f K` is running `K` on the mapped calls -/
+theorem aux_map_run {γ τ : Type} (f : γ → α) (K : Snk τ α) (ops : List (Op γ)) :
+    ∀ (c : (τ × List (Ev γ)) × Bool),
+      (runOps (map f K).recd c ops).1.1 = (runOps K.recd ((c.1.1, c.1.2.map (mapEv f)), c.2) (ops.map (opMap f))).1.1 ∧
+      (runOps (map f K).recd c ops).1.2.map (mapEv f) =
+        (runOps K.recd ((c.1.1, c.1.2.map (mapEv f)), c.2) (ops.map (opMap f))).1.2 ∧
+      (runOps (map f K).recd c ops).2 = (runOps K.recd ((c.1.1, c.1.2.map (mapEv f)), c.2) (ops.map (opMap f))).2 := by
+  induction ops with
+  | nil => intro c; exact ⟨rfl, rfl, rfl⟩
+  | cons op ops ih =>
+    intro c
+    simp only [runOps, List.foldl_cons, List.map_cons] at ih ⊢
+    have hstep : stepOp K.recd ((c.1.1, c.1.2.map (mapEv f)), c.2) (opMap f op) =
+        (((stepOp (map f K).recd c op).1.1, (stepOp (map f K).recd c op).1.2.map (mapEv f)),
+          (stepOp (map f K).recd c op).2) := by
+      cases op <;> simp [stepOp, opMap, map, Snk.recd, mapEv]
+    rw [hstep]
+    exact ih _
+
+/-- **a stacked chain** `map f ∘ flat_map g ∘ filter p` (the 3-stage chain of the correspondence, for
+arbitrary closures, any inner sink and every contract-honouring client): the innermost sink sees a
+contract-honouring call sequence; what it received followed by what `flat_map` still buffers (after
+the filter) is exactly `filter p (flat_map g (map f items))` of the client's items, in order, once;
+no `start_send` panics; after a `Ready` flush/close nothing is buffered.  Derived from the
+single-adaptor theorems (`flatMap_delivers_in_order`, the `Filter` trace lemma, `Map` as a call
+translation) through the simulation-lifting lemmas `aux_sim_*`, which is how any other stack chains. -/
+theorem chain_map_flatMap_filter_delivers_in_order {γ δ : Type} (f : γ → δ) (g : δ → List α) (p : α → Bool)
+    (k : Snk σ α) (s : σ) (ops : List (Op γ)) :
+    let r := runOps (map f (flatMap g (filter p k.recd))).recd ((((s, []), []), []), true) ops
+    protoOk r.1.2 = true →
+      protoOk r.1.1.1.2 = true ∧
+      sends r.1.1.1.2 ++ r.1.1.2.filter p = (((sends r.1.2).map f).flatMap g).filter p ∧ r.2 = true ∧
+      (lastFlushed r.1.2 = true → sends r.1.1.1.2 = (((sends r.1.2).map f).flatMap g).filter p) := by
+  intro r hc
+  -- the same run with the `Filter` stage recorded as a whole
+  let r' := runOps (map f (flatMap g (filter p k).recd)).recd ((((s, []), []), []), true) ops
+  have hsim := aux_sim_run (aux_sim_recd (aux_sim_map f (aux_sim_flatMap g (aux_sim_filter p k)))) ops
+    ((((s, []), []), []), true) ((((s, []), []), []), true) ⟨⟨⟨rfl, rfl⟩, rfl⟩, rfl⟩ rfl
+  obtain ⟨⟨⟨⟨hs, ht⟩, hbuf⟩, hct⟩, hok⟩ := hsim
+  change (r'.1.1.1.1 = r.1.1.1.1) at hs
+  change (r.1.1.1.2 = filterMapEv (fun x => if p x then some x else none) r'.1.1.1.2) at ht
+  change (r'.1.1.2 = r.1.1.2) at hbuf
+  change (r'.1.2 = r.1.2) at hct
+  change (r'.2 = r.2) at hok
+  -- peel `Map` off, then `flatMap_delivers_in_order` over the inner sink `filter p k`
+  obtain ⟨m1, m2, m3⟩ := aux_map_run f (flatMap g (filter p k).recd) ops ((((s, []), []), []), true)
+  have hfm := flatMap_delivers_in_order g (filter p k) s (ops.map (opMap f))
+  simp only [List.map_nil] at m1 m2 m3
+  simp only at hfm
+  rw [← m1, ← m2, ← m3] at hfm
+  have hc' : protoOk (r'.1.2.map (mapEv f)) = true := by
+    rw [hct]; simpa [protoOk, aux_protoOkAux_map] using hc
+  obtain ⟨q1, q2, q3, q4⟩ := hfm hc'
+  have hsends : sends r.1.1.1.2 = (sends r'.1.1.1.2).filter p := by
+    rw [ht, aux_sends_filterMapEv]
+    induction sends r'.1.1.1.2 with
+    | nil => rfl
+    | cons x t ih => cases hp : p x <;> simp [List.filterMap_cons, List.filter_cons, hp, ih]
+  have hmapct : sends (r'.1.2.map (mapEv f)) = (sends r.1.2).map f := by rw [aux_sends_map, hct]
+  refine ⟨by rw [ht]; exact aux_protoOk_filterMapEv _ _ false false id q1, ?_, by rw [← hok]; exact q3, ?_⟩
+  · rw [hsends, ← hbuf, ← List.filter_append, q2, hmapct]
+  · intro hl
+    have hl' : lastFlushed (r'.1.2.map (mapEv f)) = true := by
+      rw [hct]
+      have : ∀ t : List (Ev γ), lastFlushed (t.map (mapEv f)) = lastFlushed t := by
+        intro t
+        induction t with
+        | nil => rfl
+        | cons a t ih =>
+          cases t with
+          | nil => cases a <;> rfl
+          | cons b t => simp only [List.map_cons, lastFlushed] at ih ⊢; exact ih
+      rw [this]; exact hl
+    rw [hsends, q4 hl', hmapct]
+
+example :
+    let r := runOps (map (fun x => 2 * x + 1) (flatMap (fun x => [x, x + 1]) (filter (fun x => x % 3 != 0) dsnk))).recd
+      ((((⟨[false, true, false], [], []⟩, []), []), []), true) [.ready, .send 1, .ready, .ready, .ready, .send 2, .flush]
+    protoOk r.1.2 = true ∧ sends r.1.1.1.2 = [4, 5] ∧ lastFlushed r.1.2 = true := by
+  decide
+
 /-! ### findings: F4 / F4b (repaired in /repo, refuted on the code as it was), F5 (known) -/
 
 /-- F4, before the repair: `LazySinkHalf::poll_ready` answers `Ready` in `Uninit`; the source half is
